@@ -16,6 +16,7 @@
                                                                       `setitem_reject`, `setitem_reject_step`, `err_unchanged`
 -/
 import PygProofs.Lemmas.TableAbsHeap
+import PygProofs.Lemmas.TableCall
 
 namespace Pyg.Props.C01
 open Pyg Table
@@ -1215,6 +1216,115 @@ theorem abs_run (ops : List Op) (s : Heap) (hs : HeapRect s) :
 theorem abs_run_empty (ops : List Op) :
     (run [] ops).map abs = specRun [] ops ∧ trace [] ops = specTrace [] ops :=
   abs_run ops [] HeapRect.nil
+
+/-! ### derived columns with several callables, `update`, tuple projection -/
+
+/-- `d(**kw)`: the constants are assigned first (`update`; a misfit raises before any callable runs), then
+EVERY callable is evaluated exactly once (`order` is a permutation of the callables), row-wise
+(`setFns` = one `derived_column` after the other), in a dependency order: no callable reads a key that a
+callable evaluated after it defines (`DepOrder`).  Keyword names are distinct (python keyword arguments). -/
+theorem call_order (t t' : Table) (consts : List (String × ColVal)) (fns : List (String × Fn))
+    (hn : (fns.map (·.1)).Nodup) (h : t.call consts fns = .ok t') :
+    ∃ res order, t.updateE consts = .ok res ∧ order.Perm fns ∧ res.setFns order = .ok t' ∧ DepOrder order := by
+  unfold call at h
+  split at h
+  · cases h
+  · rename_i res hres
+    obtain ⟨order, h1, h2, h3⟩ := callLoop_order fns.length res t' fns hn (Nat.le_refl _) h
+    exact ⟨res, order, hres, h1, h2, h3⟩
+
+/-- the dependency loop raises `ValueError` only for a circular definition: a stage with two or more
+pending callables each of which reads a pending key.  (A derived column itself always fits; a callable can
+only fail with TypeError — `setFn_error`.) -/
+theorem call_circular (t res : Table) (n : Nat) (hr : t.Rect n) (consts : List (String × ColVal))
+    (fns : List (String × Fn)) (hres : t.updateE consts = .ok res)
+    (h : t.call consts fns = .error .value) :
+    ∃ pending : List (String × Fn), pending.Sublist fns ∧ pending.length > 1 ∧
+      ∀ kf ∈ pending, ∃ a ∈ kf.2.args, a ∈ pending.map (·.1) := by
+  unfold call at h
+  rw [hres] at h
+  obtain ⟨n', hn'⟩ := updateE_rect hr hres
+  exact callLoop_value_error _ hn' fns h
+
+/-- `d.update(other)` on a table with columns, every value of the table's length or of length 1: the
+result is `dict.update` with the length-1 values repeated; the row count is kept -/
+theorem update_all (t : Table) (n : Nat) (hr : t.Rect n) (hne : t ≠ []) (kvs : List (String × ColVal))
+    (hfit : ∀ kv ∈ kvs, kv.2.value.length = n ∨ kv.2.value.length = 1) :
+    t.update kvs = (t.updateWith (kvs.map fun kv => (kv.1, bcast n kv.2.value)), Option.none) ∧
+    (t.updateWith (kvs.map fun kv => (kv.1, bcast n kv.2.value))).Rect n := by
+  refine ⟨update_fits hr hne kvs hfit, updateWith_rect hr ?_⟩
+  intro kv hkv
+  obtain ⟨kv', hkv', rfl⟩ := List.mem_map.1 hkv
+  exact bcast_length (hfit kv' hkv')
+
+/-- `d.update(other)` whose first non-fitting value is `v`: `ValueError`, the assignments before it stay,
+nothing after it is assigned -/
+theorem update_misfit (t : Table) (n : Nat) (hr : t.Rect n) (hne : t ≠ [])
+    (pre post : List (String × ColVal)) (k : String) (v : ColVal)
+    (hfit : ∀ kv ∈ pre, kv.2.value.length = n ∨ kv.2.value.length = 1)
+    (hbad : v.value.length ≠ n ∧ v.value.length ≠ 1) :
+    t.update (pre ++ (k, v) :: post) =
+      (t.updateWith (pre.map fun kv => (kv.1, bcast n kv.2.value)), some .value) := by
+  obtain ⟨h1, h2⟩ := update_all t n hr hne pre hfit
+  rw [update_append, h1]
+  simp only [update]
+  rw [(setitem_reject _ n h2 (updateWith_ne_nil hne _) k v).2 hbad]
+
+/-- `d[k1, k2, ...]`: `KeyError` unless every key is a column; otherwise one tuple per record holding the
+named fields in the requested order (no tuple at all for an empty key list) -/
+theorem tup_rows (t : Table) (n : Nat) (hr : t.Rect n) (ks : List String) :
+    t.getTuple ks =
+      if ks.all t.cols.contains then
+        .ok (if ks.isEmpty then [] else t.rows.map fun row => ks.map fun k => Recs.lookup t.cols row k)
+      else .error .key :=
+  abs_getTuple hr ks
+
+/-! ### the column order of a concatenation
+
+`dict_concat` takes the keys from a python `set`, so the column order of `concat` / `+` / records
+construction is not determined by the code; model and reference machine use the order of first appearance
+and the correspondence compares tables as dicts.  Any other key order gives the same records up to a
+permutation of the columns: -/
+
+/-- two lists of records that differ only in the order of their columns -/
+def RecsEquiv (a b : Recs) : Prop :=
+  a.cols.Perm b.cols ∧ a.rows.length = b.rows.length ∧
+    ∀ i k, Recs.lookup a.cols (a.rows.getD i []) k = Recs.lookup b.cols (b.rows.getD i []) k
+
+theorem lookup_map_keys (keys : List String) (F : String → Cell) (k : String) :
+    Recs.lookup keys (keys.map F) k = if k ∈ keys then F k else .none := by
+  unfold Recs.lookup
+  induction keys with
+  | nil => rfl
+  | cons a as ih =>
+    simp only [List.map_cons, List.zip_cons_cons, List.find?_cons, List.mem_cons]
+    by_cases ha : a = k
+    · subst ha; simp
+    · have h1 : (a == k) = false := by simpa using ha
+      have h2 : ¬ k = a := fun h => ha h.symm
+      simp only [h1, h2, false_or]
+      exact ih
+
+theorem concat_keys_perm (keys keys' : List String) (h : keys'.Perm keys) (rs : List Recs) :
+    RecsEquiv (Recs.concatWith keys' rs) (Recs.concatWith keys rs) ∧
+    Recs.concat rs = Recs.concatWith (dedupKeys (rs.flatMap Recs.cols)) rs := by
+  refine ⟨⟨h, ?_, ?_⟩, rfl⟩
+  · simp [Recs.concatWith, List.length_flatMap]
+  · intro i k
+    have hrows : ∀ ks : List String, (Recs.concatWith ks rs).rows =
+        (rs.flatMap fun r => r.rows.map fun row => (r.cols, row)).map
+          fun p => ks.map fun k => Recs.lookup p.1 p.2 k := by
+      intro ks
+      simp [Recs.concatWith, List.map_flatMap, List.map_map, Function.comp_def]
+    rw [hrows, hrows]
+    simp only [Recs.concatWith, List.getD_eq_getElem?_getD, List.getElem?_map]
+    cases (rs.flatMap fun r => r.rows.map fun row => (r.cols, row))[i]? with
+    | none => simp [Recs.lookup]
+    | some p =>
+      simp only [Option.map_some, Option.getD_some, lookup_map_keys]
+      by_cases hk : k ∈ keys
+      · rw [if_pos hk, if_pos (h.mem_iff.2 hk)]
+      · rw [if_neg hk, if_neg (fun hk' => hk (h.mem_iff.1 hk'))]
 
 /-! ### non-vacuity: the hypotheses are satisfiable on non-trivial values -/
 
